@@ -46,7 +46,7 @@ def generate(seed, tier):
     rng = random.Random(seed)
     fam = rng.choice(FAMILIES)
     case = {"family": fam, "seed": seed, "q": rng.choice([0.0, 0.05, 0.3])}
-    n = rng.randint(3, 9)
+    n = rng.randint(3, 9) if rng.random() < 0.9 else rng.randint(12, 40)
     if fam == "random_hypergraph":
         case.update(n=n, by_size=[[s, c] for s, c in sorted(_counts(rng, n, tier).items())], sut_seed=rng.choice([0, 0, 1, rng.randint(0, 10**6), rng.randint(0, 10**6), rng.randint(0, 10**6), rng.randint(0, 10**6)]))
     elif fam == "random_uniform":
@@ -70,8 +70,11 @@ def generate(seed, tier):
         N = rng.randint(3, 8)
         orders = rng.sample([1, 2, 3], rng.randint(1, 2))
         orders = [o for o in orders if o < N] or [1]
-        case.update(N=N, time=rng.randint(1, 8),
+        case.update(N=N, time=rng.choice([rng.randint(1, 8)] * 6 + [100, 1001, 1500, 2300]),
                     acts=[[o, [round(rng.random() * rng.choice([0.2, 0.6, 1.0]), 3) for _ in range(N)]] for o in orders])
+        if case["time"] > 50:
+            # long horizons: keep the activity low so that the event list stays small
+            case["acts"] = [[o, [round(a * 0.02, 5) for a in v]] for o, v in case["acts"]]
     elif fam in ("add_random_edge", "add_random_edges"):
         spec = _gen.rand_hypergraph_spec(rng, emin=0, emax=5, singletons=0.2)
         nn = len(spec["nodes"])
